@@ -5,6 +5,7 @@ import (
 	"fmt"
 	"os"
 	"path/filepath"
+	"time"
 
 	"golang.org/x/tools/go/ssa"
 	"verif/engine/gosym"
@@ -43,6 +44,9 @@ func doReplay(path, repo, vdir string) int {
 	nb, err := gosym.BuildNative(l, repo, rec.Pkg, genDir, rec.Tags, pk)
 	if err != nil {
 		fatal(2, "%v", err)
+	}
+	if rec.Kind == "work" {
+		nb.Deadline = 20 * time.Second
 	}
 	outcome, raw, _ := nb.RunSingle(rec.Harness, rec.Assign, rec.Tier)
 	fmt.Println(raw)
